@@ -644,10 +644,14 @@ func (in *interp) eval(e bn.Expr, env *Env) Value {
 		in.nextID++
 		obj := &Object{M: map[string]Value{}, ID: in.nextID}
 		for i, k := range e.Keys {
+			// every initialiser runs, in source order (C13); which of the initialisers of a repeated name
+			// gives the property its value is pinned nowhere: the value is undetermined
+			v := in.eval(e.Vals[i], env)
 			if _, dup := obj.M[k]; dup {
-				in.unspecified("object literal with duplicate keys")
+				in.tag("repeated-property-name")
+				v = OpaqueV()
 			}
-			obj.M[k] = in.eval(e.Vals[i], env)
+			obj.M[k] = v
 		}
 		return Value{K: KObj, O: obj}
 	}
